@@ -33,6 +33,8 @@ SAN_FLAGS = [
     "-fno-omit-frame-pointer",
 ]
 BASE_FLAGS = ["-std=c++11", "-O1", "-g", "-DASL_VERIF", "-DASL_STATIC", "-w"]
+# the library's own build (CMakeLists.txt: -O3), hooks off, no sanitizer: what users run
+PROD_FLAGS = ["-std=c++11", "-O3", "-DASL_STATIC", "-w"]
 
 
 def log(*a):
@@ -92,6 +94,8 @@ def build_lib(kind="asan"):
         flags += SAN_FLAGS
     elif kind == "tsan":
         flags += ["-fsanitize=thread", "-fno-omit-frame-pointer"]
+    elif kind == "prod":
+        flags = list(PROD_FLAGS)
     key = hashlib.sha256((th + " ".join(flags)).encode()).hexdigest()[:16]
     d = os.path.join(BUILD, "lib%s-%s" % (kind, key))
     lib = os.path.join(d, "libasl.a")
@@ -145,6 +149,8 @@ def build_harness(name, libdir, kind="asan", extra_srcs=(), extra_flags=()):
         flags += SAN_FLAGS
     elif kind == "tsan":
         flags += ["-fsanitize=thread", "-fno-omit-frame-pointer"]
+    elif kind == "prod":
+        flags = list(PROD_FLAGS)
     flags += list(extra_flags)
     key = sha_files(set(deps), os.path.basename(libdir) + " ".join(flags))
     d = os.path.join(BUILD, "h%s-%s" % (name, key))
